@@ -41,6 +41,36 @@ Eval vm_compute in unparsed_lines.
 """
 
 
+def gate_reports(root, tmp, limits):
+    """the generator of the working tree, built with the hooks for each unrolling limit, run in report mode (LIBECPINT_VERIF_GATE_REPORT): it walks
+    every class of that configuration and prints a GATEDROP line for every combination its emission gate rejects although one of its terms is
+    not zero (unrolled class: the term is missing from the generated code; rolled-up class: only if the radial triple is lost as well)"""
+    import subprocess
+    procs = []
+    for u in limits:
+        b = os.path.join(tmp, "gate_u%d" % u)
+        cm = ["cmake", "-G", "Ninja", "-S", os.path.join(root, "src"), "-B", b, "-DCMAKE_BUILD_TYPE=Release", "-DLIBECPINT_BUILD_TESTS=OFF", "-DLIBECPINT_BUILD_DOCS=OFF",
+              "-DLIBECPINT_MAX_UNROL=%d" % u, "-DCMAKE_CXX_FLAGS=-D%s" % GUARD]
+        rc, out = sh(cm, check=False, timeout=600)
+        if rc != 0:
+            raise BuildError("cmake configure failed for the generator (MAX_UNROL=%d)\n%s" % (u, out[-2000:]))
+        rc, out = sh(["cmake", "--build", b, "--target", "generate", "-j4"], check=False, timeout=1200)
+        if rc != 0:
+            raise BuildError("generator build failed (MAX_UNROL=%d)\n%s" % (u, out[-3000:]))
+        hdr = os.path.join(b, "hdr") + os.sep; os.makedirs(hdr, exist_ok=True)
+        procs.append((u, subprocess.Popen([os.path.join(b, "src", "generate"), hdr], cwd=os.path.join(b, "src"), env=dict(os.environ, LIBECPINT_VERIF_GATE_REPORT="1"),
+                                          stdout=subprocess.PIPE, stderr=subprocess.STDOUT)))
+    out = {}
+    for u, p in procs:
+        o, _ = p.communicate(timeout=3600)
+        o = o.decode()
+        if p.returncode != 0:
+            raise RuntimeError("generator (report mode, MAX_UNROL=%d) failed: %s" % (u, o[-1500:]))
+        out[u] = [l.strip() for l in o.splitlines() if l.startswith("GATEDROP")]
+        shutil.rmtree(os.path.join(tmp, "gate_u%d" % u), ignore_errors=True)
+    return out
+
+
 def coq_obligation(res, d, tag):
     """gen/Generated<tag>.v from the parsed generator output, then the theorem config_ok classes = true (vm_compute).
     Returns (ok, diagnostics)."""
@@ -85,6 +115,12 @@ def run(tier, replay=None):
             ok_, diag_ = coq_obligation(res, dd, tag)
             if not ok_:
                 obl_failed.append((tag or "_u1", diag_))
+        # ---- unrolling limits that are not built (their translation units are tens to hundreds of MB): the generator itself is asked, through
+        #      the hook at its emission gate, whether it rejects a combination with a non-zero term, for MAX_UNROL = 1, 2, 3 (thorough: 4)
+        gl = [1, 2, 3] if tier == "quick" else [1, 2, 3, 4]
+        gr = gate_reports(root, tmp, gl)
+        res.cov["generator_gate_reports"] = {"MAX_UNROL=%d" % u: len(v) for u, v in gr.items()}
+        gate_bad = [(u, l) for u, v in sorted(gr.items()) for l in v]
         progs = int(kv1["classes"]) + int(kv0["classes"])
         bads = [("MAX_UNROL=1", b) for b in bad1] + [("MAX_UNROL=0", b) for b in bad0]
         # same triple lists in both configurations
@@ -179,6 +215,17 @@ def run(tier, replay=None):
             m = re.match(r"Q\((\d+),(\d+),(\d+)\)", cls_)
             res.violation("gen-%d" % len(seen), {"theorem_or_correspondence": "generated class = generic contraction with exact angular factors (translation validation)",
                                                  "input": {"configuration": cfg, "class": cls_}, "observed": [x for c_, x in bads if x.split()[1] == cls_][:8], "n_findings": len(bads)})
+        gseen = set()
+        for u, l in gate_bad:
+            t = l.split()
+            cls_ = "Q(%s,%s,%s)" % (t[4], t[5], t[6])
+            if (u, cls_) in gseen or len(gseen) >= 3:
+                continue
+            gseen.add((u, cls_))
+            res.violation("gate-u%d-%s" % (u, cls_.replace("(", "").replace(")", "").replace(",", "")),
+                          {"theorem_or_correspondence": "the generator emits one line for every non-zero term of an unrolled class and keeps every radial triple a rolled-up class needs (reported by the generator itself at its emission gate, LIBECPINT_VERIF_GATE_REPORT)",
+                           "input": {"configuration": "LIBECPINT_MAX_UNROL=%d" % u, "class": cls_, "dropped": l},
+                           "observed": [x for uu, x in gate_bad if uu == u and x.split()[4:7] == t[4:7]][:6], "n_dropped_combinations": len([1 for uu, _ in gate_bad if uu == u])})
         if not proofs_ok:
             proof_broken(res, PID, "Properties_C09.v")
         for cfg, diag_ in obl_failed:
@@ -205,5 +252,5 @@ def run(tier, replay=None):
                               "dims, nbase, QGEN table; two real builds compared on sampled inputs")
     res.assumptions += ["translators/t_gen.py parses the generated sources (term grammar; unparsed lines are reported)",
                         "exact-rational angular model for the unrolled coefficients; the implementation's own Omega table (verified entry by entry by C13) for the sparsity pattern of the large classes",
-                        "MAX_UNROL >= 2 is not built (20 MB translation units)"]
+                        "MAX_UNROL >= 2 is not built (translation units of 20 MB to 700 MB); for MAX_UNROL = 2, 3 (thorough: 4) the generator's emission gate is interrogated through the hook instead: no combination with a non-zero term may be rejected"]
     return res.finish()
